@@ -1367,6 +1367,148 @@ def pickle_meta_oracle(shop: bool, src: str, variant: int) -> tuple[str, str, di
     return ("", "", info)
 
 
+def lit_src(text: str, q: str) -> str:
+    """`text` as the inside of a q-delimited string literal (deterministic)."""
+    out = []
+    for i, ch in enumerate(text):
+        if ch in (q, "\\"):
+            out.append("\\" + ch)
+        elif ch == "$" and text[i + 1:i + 2] == "{":
+            out.append("\\$")
+        elif ch == "\n":
+            out.append("\\n")
+        elif ord(ch) < 0x20:
+            out.append(f"\\u{ord(ch):04x}")
+        else:
+            out.append(ch)
+    return "".join(out)
+
+
+def poison_sources(text: str) -> list[str]:
+    """Templates that contain the literal `text` in the other contexts the
+    string writer serves — and, where possible, under the OTHER delimiter than
+    a plain string literal of `text` gets: as a literal part of a template
+    string whose remaining text flips the quote choice."""
+    plain_q = '"' if "'" in text and '"' not in text else "'"
+    out = ["{{ '" + lit_src(text, "'") + "' }}", '{{ "' + lit_src(text, '"') + '" }}']
+    if plain_q == '"':
+        flip = '"'          # adding a double quote makes the writer choose single quotes
+    elif '"' not in text:
+        flip = "'"          # adding an apostrophe makes it choose double quotes
+    else:
+        flip = None
+    if flip is not None:
+        out.append("{{ '" + lit_src(text, "'") + "${a}" + lit_src(flip, "'") + "' }}")
+        out.append("{{ '" + lit_src(flip, "'") + "${a | append: \"" + lit_src(text, '"') + "\"}"
+                   + lit_src(text, "'") + "' }}")
+    out.append("{{ a['" + lit_src(text, "'") + "'] }}{% assign z = b | default: x[\"" + lit_src(text, '"') + "\"] %}")
+    out.append("{% increment '" + lit_src(text, "'") + "' %}{% cycle \"" + lit_src(text, '"') + "\": 1, 2 %}")
+    if not (RE_WORD.fullmatch(text) and text != text.strip()):
+        # (a name edged with Unicode whitespace in a line statement is known finding
+        # unicode-space-in-bare-name, re-observed on its own witness)
+        out.append("{% liquid echo a['" + lit_src(text, "'") + "']\n echo '" + lit_src(text, "'") + "' %}")
+    return out
+
+
+def light_roundtrip(env: Any, src: str) -> tuple[str, dict[str, Any]] | None:
+    """Reparse / fixpoint / tree equality / one render, for a poisoning template.
+    Returns (what, info) on failure."""
+    try:
+        t = env.from_string(src)
+    except Exception:  # noqa: BLE001 - not a template (e.g. a code point the lexer rejects)
+        return None
+    s1 = str(t)
+    info = {"source": src, "str": s1}
+    try:
+        t2 = env.from_string(s1)
+    except Exception as e:  # noqa: BLE001
+        info["error"] = f"{type(e).__name__}"
+        return ("str(template) does not parse: " + type(e).__name__, info)
+    if str(t2) != s1:
+        info["str2"] = str(t2)
+        return ("str(parse(str(t))) differs from str(t)", info)
+    try:
+        if dump_nodes(t.nodes) != dump_nodes(t2.nodes):
+            return ("the reparsed template has a different syntax tree", info)
+    except Unsupported:
+        pass
+    data = {"a": {"x": 1}, "b": None, "x": {}}
+    if render_outcome(t, data) != render_outcome(t2, data):
+        return ("the reparsed template renders differently", info)
+    return None
+
+
+def history_oracle(env: Any, other_env: Any, src: str, s1: str, texts: list[str]) -> tuple[str, str, dict[str, Any]] | None:
+    """str() must not depend on what was serialised before. After `src` has
+    been serialised (`s1`), serialise templates that contain the same literal
+    texts in other contexts and under the other delimiter (each must round
+    trip), in the same and in another environment, then serialise `src` again:
+    same text as the first time, and it still parses."""
+    for i, text in enumerate(texts):
+        for j, psrc in enumerate(poison_sources(text)):
+            bad = light_roundtrip(env if (i + j) % 2 == 0 else other_env, psrc)
+            if bad:
+                return ("oracle:history-dependent-str",
+                        "a template serialised after another one that contains the same literal text: " + bad[0],
+                        {"serialised first": src, "first str": s1, "literal text": text, **bad[1]})
+    try:
+        s_again = str(env.from_string(src))
+    except Exception:  # noqa: BLE001
+        return None
+    if s_again != s1:
+        return ("oracle:history-dependent-str", "str() of the same source differs after other templates were serialised",
+                {"source": src, "str": s1, "str again": s_again, "literal texts": texts})
+    try:
+        env.from_string(s_again)
+    except Exception as e:  # noqa: BLE001
+        return ("oracle:history-dependent-str", "str() after other templates were serialised does not parse",
+                {"source": src, "str again": s_again, "error": type(e).__name__})
+    return None
+
+
+def literal_texts(t: Any, cap: int = 6) -> list[str]:
+    """The distinct string values of a template's expressions (string literals,
+    quoted path segments, names), those with exactly one kind of quote first."""
+    found: list[str] = []
+
+    def walk(e: Any, depth: int = 0) -> None:
+        if depth > 12:
+            return
+        n = type(e).__name__
+        if n == "StringLiteral":
+            found.append(str(e.value))
+        elif n == "Path":
+            found.extend(str(s) for s in e.path if isinstance(s, str))
+        for c in getattr(e, "children", lambda: [])() or []:
+            walk(c, depth + 1)
+
+    def nodes(ns: Any, depth: int = 0) -> None:
+        if depth > 8:
+            return
+        for n in ns:
+            try:
+                for e in n.expressions():
+                    walk(e)
+            except Exception:  # noqa: BLE001
+                pass
+            for attr in ("name", "alias"):
+                v = getattr(n, attr, None)
+                if isinstance(v, str):
+                    found.append(str(v))
+            try:
+                kids = list(n.children(None, include_partials=False))  # type: ignore[arg-type]
+            except Exception:  # noqa: BLE001
+                kids = []
+            for k in kids:
+                nodes(getattr(k, "nodes", [k]) if hasattr(k, "nodes") else [k], depth + 1)
+
+    nodes(t.nodes)
+    uniq = list(dict.fromkeys(x for x in found if all(ord(c) >= 8 for c in x)))
+    one_quote = [x for x in uniq if ("'" in x) != ('"' in x)]
+    rest = [x for x in uniq if x not in one_quote]
+    return (one_quote + rest)[:cap]
+
+
 EDGE_TEXTS = ["yes ", " no", " \n mid \n ", "x", "\t", " "]
 MARKS = ["", "-", "~", "+"]
 
@@ -1573,6 +1715,10 @@ TEMPLATE_CORPUS = [
     "{{ x | map: i => (i.a or i.b) and i.a | join: ',' }}", "{{ 10000000000000000.0 }}",
     "{{ 'a${b | append: \"x\\ny\"}c' }}", "{{ 'a\\${b}${c}' }}", "{{ '\\u001b' }}",
     "{% increment 'a b' %}{% cycle 'a b': 1, 2 %}{% cycle '': 1, 2 %}{% cycle 1, 2 %}",
+    "{{ \"don't\" }}{{ 'don\\'t${a}\"' }}", "{{ 'don\\'t${a}\"' }}{{ \"don't\" }}",
+    "{{ 'say \"hi\"' }}{{ \"say \\\"hi\\\"${a}'\" }}", "{{ a[\"don't\"] }}{{ '\"${a | append: \"don't\"}don\\'t' }}",
+    "{% increment \"don't\" %}{{ 'don\\'t${a}\"' }}{% assign z = \"don't\" %}{{ z }}",
+    "{% liquid echo \"don't\"\n echo 'don\\'t${a}\"' %}",
     "{% include 'a' for b as c %}{% render 'a' with b as 'y z' %}", "{{ b, | first }}",
     "{% macro 'my f' p %}{{ p }}{% endmacro %}{% call 'my f' 1 %}", "{% block 'a b' %}x{% endblock %}",
     "{% liquid echo a\n# note  %}", "{% liquid\n  echo ['a b']\n echo y[\"a\\nb\"]\n echo [true] %}",
@@ -1593,6 +1739,12 @@ KNOWN_WITNESSES = [
      "`['limit']` as the second item of an array-literal loop iterable is serialised as the bare word "
      "`limit`, which LoopExpression.parse takes for the limit option (and `offset: ['continue']` for the "
      "string 'continue')"),
+    ("unicode-space-in-bare-name", "{% liquid echo a['\u00a0'] %}",
+     "a word or dotted path segment may consist of or end in Unicode whitespace (U+00A0, U+2028 are in the WORD "
+     "range); _expression_as_string() ends with str.strip(), so the last token of a tag / line statement loses it "
+     "(fix proposed: proposed_fixes/C12/0014)"),
+    ("unicode-space-in-bare-name", "{{ ['\u2028'] }}",
+     "a variable whose name starts with Unicode whitespace is written bare, and the `\\s*` after `{{` swallows it"),
     ("loop-bare-word-reinterpreted", "{% for i in b offset: ['continue'] %}{{ i }}{% endfor %}",
      "`offset: ['continue']` is serialised as `offset:continue`, which is read as the string 'continue'"),
 ]
@@ -1733,7 +1885,7 @@ def main(chk: C.Check, build: C.Build) -> None:  # noqa: PLR0912, PLR0915
     for _ in range(n_tpl):
         shop = r.random() < 0.3
         tpls.append((shop, gen_template(r, shopify=shop)))
-    t_ok = t_noparse = t_unmodelled = t_meta = t_meta_used = t_deep_not = 0
+    t_ok = t_noparse = t_unmodelled = t_meta = t_meta_used = t_deep_not = t_hist = t_hist_quote = 0
     outcomes = {"output": 0, "error": 0}
     tpl_nontrivial: set[str] = set()
     tpl_samples: list[dict[str, Any]] = []
@@ -1755,6 +1907,14 @@ def main(chk: C.Check, build: C.Build) -> None:  # noqa: PLR0912, PLR0915
             chk.finding(km or sig, what + (": " + info.get("error", "") if info.get("error") else ""),
                         {"shopify_environment": shop, **info, "how": "harness/c12.py oracle(env, source, data)"})
             continue
+        texts = literal_texts(t)
+        if texts:
+            h = history_oracle(env, envs[not shop], src, info["str"], texts)
+            if h:
+                chk.finding(h[0], h[1], {**h[2], "how": "harness/c12.py history_oracle"})
+                continue
+            t_hist += 1
+            t_hist_quote += any(("'" in x) != ('"' in x) for x in texts)
         pm = pickle_meta_oracle(shop, src, t_ok % 4)
         if pm is not None and pm[0]:
             chk.finding(pm[0], pm[1], {"shopify_environment": shop, **pm[2],
@@ -1839,6 +1999,8 @@ def main(chk: C.Check, build: C.Build) -> None:  # noqa: PLR0912, PLR0915
                          "markers on branch tags) passing the oracle": eb_ok,
                          "... whose output differs between the data sets selecting different branches": eb_trim,
                          "templates with a `not` >= 2 infix levels down the right spine of a left operand": t_deep_not,
+                         "templates re-serialised after poisoning templates with the same literal texts": t_hist,
+                         "... with a literal text that has exactly one kind of quote": t_hist_quote,
                          "templates pickled with overlay data, globals, name, path, uptodate": t_meta,
                          "... whose output on empty data depends on overlay data / template globals": t_meta_used,
                          "templates with a node outside the markup model": t_unmodelled,
